@@ -90,13 +90,33 @@ class SimLock:
     def _is_owned(self):
         return self._owner == threading.get_ident()
 
+    def _at_fork_reinit(self):
+        import _thread  # pylint: disable=import-outside-toplevel
+
+        self._real = _thread.allocate_lock()
+        self._owner = None
+        self._count = 0
+
+
+def _for_code_under_test():
+    """True when the lock is being created by a module of the package under test."""
+    frame = sys._getframe(2)  # pylint: disable=protected-access
+    return str(frame.f_globals.get("__name__", "")).startswith("pyubx2")
+
 
 def sim_lock():
+    if not _for_code_under_test():
+        return _REAL["Lock"]()
     return SimLock(False)
 
 
 def sim_rlock():
+    if not _for_code_under_test():
+        return _REAL["RLock"]()
     return SimLock(True)
+
+
+_REAL = {"Lock": threading.Lock, "RLock": threading.RLock}
 
 
 class Baton:
